@@ -2,9 +2,43 @@ package tex
 
 import (
 	"database/sql/driver"
+	"fmt"
+	"math"
 	"strconv"
 	"time"
 )
+
+// scanInt64 converts a driver value to int64 exactly: integers in range, decimal text, nil (NULL) as 0;
+// anything else is an error instead of a silent zero.
+func scanInt64(value interface{}) (int64, error) {
+	switch v := value.(type) {
+	case nil:
+		return 0, nil
+	case int32:
+		return int64(v), nil
+	case uint32:
+		return int64(v), nil
+	case int64:
+		return v, nil
+	case uint64:
+		if v > math.MaxInt64 {
+			return 0, fmt.Errorf("scan.value.out.of.range:%d", v)
+		}
+		return int64(v), nil
+	case int:
+		return int64(v), nil
+	case uint:
+		if uint64(v) > math.MaxInt64 {
+			return 0, fmt.Errorf("scan.value.out.of.range:%d", v)
+		}
+		return int64(v), nil
+	case []byte:
+		return strconv.ParseInt(string(v), 10, 64)
+	case string:
+		return strconv.ParseInt(v, 10, 64)
+	}
+	return 0, fmt.Errorf("unsupported.scan.type:%T", value)
+}
 
 // UnixNano2Time
 // 纳秒时间戳时间
@@ -12,20 +46,9 @@ type UnixNano2Time time.Time
 
 // Scan : sql scan
 func (s *UnixNano2Time) Scan(value interface{}) error {
-	var ts int64
-	switch v := value.(type) {
-	case int32:
-		ts = int64(v)
-	case uint32:
-		ts = int64(v)
-	case int64:
-		ts = v
-	case uint64:
-		ts = int64(v)
-	case int:
-		ts = int64(v)
-	case uint:
-		ts = int64(v)
+	var ts, err = scanInt64(value)
+	if err != nil {
+		return err
 	}
 	*s = UnixNano2Time(time.Unix(0, ts))
 	return nil
@@ -41,20 +64,9 @@ type Unix2Time time.Time
 
 // Scan : sql scan
 func (s *Unix2Time) Scan(value interface{}) error {
-	var ts int64
-	switch v := value.(type) {
-	case int32:
-		ts = int64(v)
-	case uint32:
-		ts = int64(v)
-	case int64:
-		ts = v
-	case uint64:
-		ts = int64(v)
-	case int:
-		ts = int64(v)
-	case uint:
-		ts = int64(v)
+	var ts, err = scanInt64(value)
+	if err != nil {
+		return err
 	}
 	*s = Unix2Time(time.Unix(ts, 0))
 	return nil
@@ -70,9 +82,12 @@ type UnixStamp int64
 
 // Scan : sql scan
 func (i *UnixStamp) Scan(value interface{}) error {
-	var t, ok = value.(time.Time)
-	if ok {
+	switch t := value.(type) {
+	case nil:
+	case time.Time:
 		*i = UnixStamp(t.Unix())
+	default:
+		return fmt.Errorf("unsupported.scan.type:%T", value)
 	}
 	return nil
 }
@@ -119,9 +134,12 @@ type SQLTime2Unix int64
 
 // Scan : sql scan
 func (i *SQLTime2Unix) Scan(value interface{}) error {
-	var t, ok = value.(time.Time)
-	if ok {
+	switch t := value.(type) {
+	case nil:
+	case time.Time:
 		*i = SQLTime2Unix(t.Unix())
+	default:
+		return fmt.Errorf("unsupported.scan.type:%T", value)
 	}
 	return nil
 }
